@@ -123,7 +123,7 @@ def units(tier, seed):
         for b in range(nbf):
             out.append({"kind": "import", "sid": "table" if fam == "tables" else "list", "vocab": fam, "n": n, "block": b,
                         "nblocks": nbf, "name": f"import/family/{fam}<={n}#{b}/{nbf}"})
-    for cid in ("ctx_bq", "ctx_li", "ctx_bq_any", "ctx_alt", "ctx_grp", "ctx_gp"):
+    for cid in ("ctx_bq", "ctx_li", "ctx_bq_any", "ctx_alt", "ctx_grp", "ctx_gp", "ctx_bq_ga", "ctx_li_ga", "ctx_gp_ga"):
         out.append({"kind": "context", "sid": cid, "n": 6 if q else 7, "name": f"context/{cid}"})
     exp = [
         {"sid": "basic", "family": "blocks", "size": 6 if q else 7},
@@ -131,6 +131,7 @@ def units(tier, seed):
         {"sid": "list", "family": "html_lists", "size": 10 if q else 14},
         {"sid": "list", "family": "astral", "size": 5 if q else 7},
         {"sid": "basic", "family": "html_special", "size": 5 if q else 6},
+        {"sid": "basic", "family": "html_nbsp", "size": 6 if q else 7},
     ]
     for u in common.doc_units(PROPERTY_ID, exp, per_scope_blocks=8 if q else 16):
         u["kind"] = "export"
@@ -349,6 +350,13 @@ def export_scope(model, family, sid, size):
             "attrs": {"ordered_list": [{"order": 1}, {"order": 3}]},
             "max_children": 2,
             "max_depth": 5,
+        }
+    elif family == "html_nbsp":
+        s = {
+            "types": ["doc", "paragraph", "text"],
+            "texts": ["a\u00a0", " b", "c", "\u00a0"],
+            "marksets": _ms(model, [], [EM]),
+            "max_children": 3,
         }
     elif family == "html_special":
         s = {
